@@ -101,7 +101,9 @@ def check_case(c):
             # saddle between two close O-points on a coarse array)
             others = [math.hypot(r - q[0], z - q[1]) for q in refc if math.hypot(r - q[0], z - q[1]) > 0.5 * cell]
             separated = min(others + [1e9]) > 6 * cell
-            if separated and abs(det) > hess_margin and ((det > 0) != (kind == "O")):
+            # (4 x the margin used for "good" reference points: a saddle this shallow between two merging
+            # blobs is not resolved by a +-2 cell stencil on a 27-point array)
+            if separated and abs(det) > 4 * hess_margin and ((det > 0) != (kind == "O")):
                 fail("C19/misclassified", {"returned_as": kind, "hessian_det": det, "R": r, "Z": z})
             if abs(float(sref.psi(r, z)) - p) > 1e-10 * scale:
                 fail("C19/returned-psi-wrong", {"got": p, "want": float(sref.psi(r, z))})
